@@ -27,6 +27,25 @@ fn main() {
         usage();
     }
     let prop = args[1].clone();
+    if prop == "dev-zugzwang" {
+        let n: u32 = args.get(2).and_then(|x| x.parse().ok()).unwrap_or(1_000_000);
+        let t0 = std::time::Instant::now();
+        let (mut x, mut hits) = (12345u64, 0u64);
+        let mut stages = [0u64; 16];
+        for _ in 0..n {
+            match props::searchsem::zugzwang_root_stage(&mut x) {
+                Ok(p) => {
+                    hits += 1;
+                    if hits <= 8 {
+                        println!("{}", p.fen());
+                    }
+                }
+                Err(k) => stages[k as usize] += 1,
+            }
+        }
+        println!("tries {} hits {} in {:?}; rejected at stage: {:?}", n, hits, t0.elapsed(), stages);
+        return;
+    }
     if prop == "dev-crosscheck" {
         // development aid: how often does the candidate stream of C11's cross-check family hit?
         let n: u32 = args.get(2).and_then(|x| x.parse().ok()).unwrap_or(1_000_000);
